@@ -227,11 +227,13 @@ class Env:
     def lookup(self, name):
         if name in self.locals and name not in self.global_names:
             return self.locals[name]
-        if name in self.closure:
-            c = self.closure[name]
-            if isinstance(c, Env):
-                return c.lookup(name)
-            return c
+        if isinstance(self.closure, Env):
+            try:
+                return self.closure.lookup(name)
+            except PyRaise:
+                pass
+        elif name in self.closure:
+            return self.closure[name]
         if name in self.globals:
             return self.globals[name]
         if hasattr(builtins, name):
